@@ -134,6 +134,20 @@ def make(macros, plain=("c",), red=None, b1=True):
         extra.append("(defvirtualkeys " + " ".join(["%s %s" % vks[y] for y in sorted(vks)] + vmacros) + ")")
     for k in plain:
         layer[k] = {"t": "key", "k": pouts[k]}
+
+    def names(its):
+        for i in its:
+            if isinstance(i, str):
+                yield i
+            elif isinstance(i, dict) and i["t"] == "modkey":
+                yield i["k"]
+            elif isinstance(i, dict) and i["t"] == "group":
+                yield from names(i["items"])
+            elif isinstance(i, dict) and i["t"] == "vk":
+                yield i["o"]
+    used = {n for m in macros for n in names(m[2])}
+    if used & {pouts[k] for k in plain}:
+        raise ToolError("C08 instance: a plain key's output is also a macro key: %r" % sorted(used & {pouts[k] for k in plain}))
     keys = [m[0] for m in macros if not isinstance(m[0], tuple)] + \
            [pk for m in macros if isinstance(m[0], tuple) for pk in m[0][2].values()] + list(plain)
     desc = {"keys": keys, "layers": [layer], "extra": extra}
@@ -176,6 +190,8 @@ def family(tier, rng):
             ("two_rep", [("a", "macro-repeat", ["a", "b"]), ("b", "macro-repeat-release-cancel", [MK(C, "x")])], (), 2, 2),
             ("plain_q3", [("a", "macro", [G(S, "a", 2, "b"), "a"])], ("c",), 3, 3),
             ("btn_pc", [("a", "macro-cancel-on-press", [BTN("Left"), "x", BTN("Left"), BTN("Right")])], ("c",), 1, 2),
+            # a cancel-on-press key released normally next to a longer plain macro and a plain key
+            ("stale_pc", [("a", "macro-repeat-cancel-on-press", ["a"]), ("b", "macro", [G(S, "g", 2, "h")])], ("c",), 2, 1),
             ("plain_grp2", [("a", "macro", [G(S, "a", 3, "b"), "a"])], ("c",), 2, 2),
             ("rep_vkey3", [(("vk", "v1", {"tg": "a", "pk": "b", "rk": "c"}), "macro-repeat", ["x", 1, "b"])], (), 2, 2),
             ("ring", [("a", "macro", [G(S, "a", 3, "b"), 3])], (), 4, 2),
@@ -314,18 +330,47 @@ def compile_check(res, tier, rng, wd):
 
 
 # ---- scripts beyond the model's bounds ----------------------------------------------------------------
-def burst_job(n, gap, b1):
-    """n macro keys with pairwise disjoint output keys, each M-(k <delay> k'), pressed `gap` ticks apart"""
+def burst_job(n, gap, b1=True, late=()):
+    """n macro keys with pairwise disjoint output keys, each M-(k <delay> k'), pressed `gap` ticks apart; the first
+    four are plain macros that are tapped, `late` gives the variants of the 5th, 6th key (default plain), which are
+    held for a while when they repeat (a macro beyond the documented capacity may start once there is room)"""
     phys = ["a", "b", "c", "d", "e", "f"][:n]
     mods = ["lsft", "lctl", "lalt", "lmet", "rsft", "rctl"]
     outs = [("g", "h"), ("i", "j"), ("k", "l"), ("m", "n"), ("o", "p"), ("q", "r")]   # (digits would be delays)
-    macros = [(phys[i], "macro", [G([mods[i]], outs[i][0], 30, outs[i][1])]) for i in range(n)]
+    var = ["macro"] * 4 + list(late) + ["macro"] * 2
+    macros = [(phys[i], var[i], [G([mods[i]], outs[i][0], 30, outs[i][1])]) for i in range(n)]
     desc, params = make(macros, plain=(), b1=b1)
-    s = []
-    for k in phys:
-        s += [["d", cfgdesc.code(k)], ["t", gap], ["u", cfgdesc.code(k)], ["t", gap]]
+    s, held = [], []
+    for i, k in enumerate(phys):
+        if VARIANTS[var[i]][0]:
+            s += [["d", cfgdesc.code(k)], ["t", 2 * gap]]
+            held.append(k)
+        else:
+            s += [["d", cfgdesc.code(k)], ["t", gap], ["u", cfgdesc.code(k)], ["t", gap]]
+    s.append(["t", 70])
+    for k in held:
+        s += [["u", cfgdesc.code(k)], ["t", 3]]
     s.append(["t", 120])
-    return {"cfg": cfgdesc.render_kbd(desc), "params": params, "tag": "burst%d_g%d" % (n, gap), "scripts": [s]}
+    tag = "burst%d_g%d%s" % (n, gap, "".join("_" + "".join(w[0] for w in v.split("-")) for v in late))
+    return {"cfg": cfgdesc.render_kbd(desc), "params": params, "tag": tag, "scripts": [s]}
+
+
+def stale_window_jobs(quick):
+    """a cancel-on-press key used and released normally must not leave its trigger armed: a long plain macro B that
+    runs meanwhile survives a later press of an unrelated key (hold time h, pause w before that press)"""
+    jobs = []
+    A, B, Cc = cfgdesc.code("a"), cfgdesc.code("b"), cfgdesc.code("c")
+    for v in sorted(VARIANTS):
+        if not VARIANTS[v][2]:
+            continue
+        desc, params = make([("a", v, ["a", 1]), ("b", "macro", [G(S, "g", 40, "h"), "g"])], ("c",))
+        scripts = []
+        for h in ((1, 4) if quick else (1, 2, 4, 9)):
+            for w in ((3, 12) if quick else (1, 3, 6, 12, 25)):
+                scripts.append([["d", B], ["t", 2], ["u", B], ["t", 2], ["d", A], ["t", h], ["u", A], ["t", w],
+                                ["d", Cc], ["t", 2], ["u", Cc], ["t", 80]])
+        jobs.append({"cfg": cfgdesc.render_kbd(desc), "params": params, "tag": "stale:" + v, "scripts": scripts})
+    return jobs
 
 
 def cancel_sweep(kbd, params, mkey, other, variant, span):
@@ -424,9 +469,16 @@ def run(tier, seed):
         random_jobs.append({"cfg": kbd, "params": params, "tag": "r:" + name, "scripts": scripts})
 
     # (3) more macros than the ring holds: 4 (fits), 5 and 6 concurrent macros with disjoint keys
-    burst_jobs = [burst_job(4, 2, True), burst_job(5, 2, True), burst_job(6, 1, True), burst_job(5, 4, False)]
+    # (every variant as the activation beyond the capacity: the plain and the repeating start sites)
+    burst_jobs = [burst_job(4, 2), burst_job(5, 2), burst_job(6, 1), burst_job(5, 4),
+                  burst_job(5, 2, late=("macro-repeat",)), burst_job(5, 3, late=("macro-repeat-cancel-on-press",)),
+                  burst_job(6, 2, late=("macro-repeat-release-cancel", "macro-repeat")),
+                  burst_job(6, 1, late=("macro", "macro-repeat-release-cancel-and-cancel-on-press"))]
     if not quick:
-        burst_jobs += [burst_job(n, g, False) for n in (4, 5, 6) for g in (1, 3, 5)]
+        burst_jobs += [burst_job(n, g) for n in (4, 5, 6) for g in (1, 3, 5)]
+        burst_jobs += [burst_job(5, g, late=(v,)) for v in sorted(VARIANTS) for g in (1, 2, 4)]
+        burst_jobs += [burst_job(6, g, late=(v, w)) for v in ("macro", "macro-repeat") for w in sorted(VARIANTS) for g in (1, 3)]
+    burst_jobs += stale_window_jobs(quick)
 
     suppressed = 0
     for label, jobs in (("witness", witness_jobs), ("random", random_jobs), ("burst", burst_jobs)):
